@@ -253,6 +253,34 @@ func c15CBOR(c *mon.Ctx, g *model.Gen, sn string, v any, sig string, embedded bo
 	}
 }
 
+// c15IfaceValue: an embedded interface may hold the struct itself instead of
+// a pointer to it ("embedded interface holding a struct"); for serialising
+// that is the same value, so both serialisers must emit the same bytes as for
+// the pointer-holding twin (which the caller has just checked key by key).
+func c15IfaceValue(c *mon.Ctx, v *shapes.EmbIface, sig string) {
+	in, ok := v.IThing.(*shapes.Inner)
+	if !ok || in == nil {
+		return
+	}
+	twin := &shapes.EmbIface{IThing: *in, T: v.T, U: v.U}
+	c.Eval()
+	b1, e1 := encoding.SerializeStructToCBOR(extprof.EM, v)
+	b2, e2 := encoding.SerializeStructToCBOR(extprof.EM, twin)
+	if (e1 == nil) != (e2 == nil) || !bytes.Equal(b1, b2) {
+		c.Violation("C15/cbor/interface-holding-struct-value-differs/EmbIface", fmt.Sprintf("an embedded interface holding the struct by value serialises differently from one holding a pointer to it (err %v vs %v)", e2, e1),
+			map[string]any{"sig": sig, "pointer_hex": mon.Hex(b1), "value_hex": mon.Hex(b2)})
+		return
+	}
+	j1, e1 := encoding.SerializeStructToJSON(v)
+	j2, e2 := encoding.SerializeStructToJSON(twin)
+	if (e1 == nil) != (e2 == nil) || !bytes.Equal(j1, j2) {
+		c.Violation("C15/json/interface-holding-struct-value-differs/EmbIface", fmt.Sprintf("an embedded interface holding the struct by value serialises differently from one holding a pointer to it (err %v vs %v)", e2, e1),
+			map[string]any{"sig": sig, "pointer_json": string(j1), "value_json": string(j2)})
+		return
+	}
+	c.Count("interface-holding-value-twins")
+}
+
 func c15JSON(c *mon.Ctx, g *model.Gen, sn string, v any, sig string, embedded bool) {
 	bad := func(key, what string, extra map[string]any) {
 		d := map[string]any{"shape": sn, "sig": sig, "value": shapes.Render(v)}
@@ -465,7 +493,7 @@ func c15Synth(c *mon.Ctx, g *model.Gen, n int, fill string) {
 }
 
 func runC15(c *mon.Ctx) {
-	c.Rule("shapes following the claims convention (pointer-typed tagged fields, '-' for bookkeeping fields): flat; one and two levels of embedded struct; embedded interface holding a struct pointer or nothing; all-optional flat and embedded; flat reflect.StructOf shapes with N synthetic keys, N (and number of set fields) in {0,1,22,23,24,25,254,255,256,257} (thorough: also 65534..65537, 70000); the two extension profiles built on P2Claims / P1Claims. For random field values x every subset of optional fields (mandatory fields set or nil): the output of SerializeStructToCBOR / JSON, read by the independent CBOR reader / a generic JSON parse, must be exactly one map = union of outer and embedded fields honouring omitempty and '-', right value per key, no duplicates, nothing trailing; serialising twice gives identical bytes; populating a fresh struct reproduces the value (incl. the all-empty one); for shapes without embedding the output decodes to the same map as the plain fxamacker / encoding/json marshaller's; removing a non-optional key makes populate fail (into a zero destination and into one that already holds values), removing an optional one does not; a duplicated CBOR key makes populate fail, also when the map is re-encoded as an indefinite-length / tagged / tagged indefinite-length / non-minimal-length map under the CBOR library's default decoding mode, while each of these forms without the duplicate populates to the same value. Extension profiles: MarshalCBOR/JSON of valid claims = base profile wire map + extension member, and round-trips. distinct_nontrivial = distinct (shape, set-field subset) signatures")
+	c.Rule("shapes following the claims convention (pointer-typed tagged fields, '-' for bookkeeping fields): flat; one and two levels of embedded struct; embedded interface holding a struct pointer, the struct by value (must serialise exactly like the pointer-holding twin) or nothing; all-optional flat and embedded; flat reflect.StructOf shapes with N synthetic keys, N (and number of set fields) in {0,1,22,23,24,25,254,255,256,257} (thorough: also 65534..65537, 70000); the two extension profiles built on P2Claims / P1Claims. For random field values x every subset of optional fields (mandatory fields set or nil): the output of SerializeStructToCBOR / JSON, read by the independent CBOR reader / a generic JSON parse, must be exactly one map = union of outer and embedded fields honouring omitempty and '-', right value per key, no duplicates, nothing trailing; serialising twice gives identical bytes; populating a fresh struct reproduces the value (incl. the all-empty one); for shapes without embedding the output decodes to the same map as the plain fxamacker / encoding/json marshaller's; removing a non-optional key makes populate fail (into a zero destination and into one that already holds values), removing an optional one does not; a duplicated CBOR key makes populate fail, also when the map is re-encoded as an indefinite-length / tagged / tagged indefinite-length / non-minimal-length map under the CBOR library's default decoding mode, while each of these forms without the duplicate populates to the same value. Extension profiles: MarshalCBOR/JSON of valid claims = base profile wire map + extension member, and round-trips. distinct_nontrivial = distinct (shape, set-field subset) signatures")
 	if err := extprof.Register(extprof.ExtP2Name, extprof.ExtP1Name); err != nil {
 		c.Violation("harness/register", err.Error(), nil)
 		return
@@ -501,6 +529,9 @@ func runC15(c *mon.Ctx) {
 				c.Count("shape:" + sn)
 				guard("cbor "+sig, func() { c15CBOR(c, g, sn, v, sig, embeddedShape[sn]) })
 				guard("json "+sig, func() { c15JSON(c, g, sn, v, sig, embeddedShape[sn]) })
+				if ei, ok := v.(*shapes.EmbIface); ok && sn == "EmbIface" {
+					guard("iface-holding-value "+sig, func() { c15IfaceValue(c, ei, sig) })
+				}
 				if mask == subsets-1 && r == 0 {
 					b, _ := encoding.SerializeStructToCBOR(extprof.EM, v)
 					c.Sample("shape:"+sn, map[string]any{"shape": sn, "cbor_hex": mon.Hex(b)})
@@ -683,6 +714,7 @@ func runC15(c *mon.Ctx) {
 	c.Floor("cbor-plain-equivalence", 100)
 	c.Floor("cbor-missing-mandatory-rejected", 100)
 	c.Floor("cbor-duplicate-key-rejected", 100)
+	c.Floor("interface-holding-value-twins", 100)
 	c.Floor("synthetic-cbor-roundtrips", 30)
 	c.Floor("extension-roundtrips:ExtP1", 500)
 	c.Floor("extension-roundtrips:ExtP2", 500)
